@@ -456,6 +456,13 @@ func (c *TermCtx) Eq(a, b *Term) *Term {
 	if a.Op == "bool" && b.Op == "bool" {
 		return c.Bool(a.Name == b.Name)
 	}
+	if a.Sort == SInt {
+		ba, ka := splitOffset(a)
+		bb, kb := splitOffset(b)
+		if ba == bb && ba != nil {
+			return c.Bool(ka.Cmp(kb) == 0)
+		}
+	}
 	if a.Op == "strlit" && b.Op == "strlit" {
 		return c.Bool(a.Name == b.Name)
 	}
@@ -595,7 +602,49 @@ func (c *TermCtx) cmp(op string, a, b *Term) *Term {
 	if a == b {
 		return c.Bool(op == "<=")
 	}
+	// (base + k1) vs (base + k2)
+	if a.Sort == SInt {
+		ba, ka := splitOffset(a)
+		bb, kb := splitOffset(b)
+		if ba == bb && ba != nil {
+			r := ka.Cmp(kb)
+			if op == "<" {
+				return c.Bool(r < 0)
+			}
+			return c.Bool(r <= 0)
+		}
+	}
 	return c.mk(op, "", SBool, a, b)
+}
+
+// splitOffset writes t as base + k (base nil for literals).
+func splitOffset(t *Term) (*Term, *big.Int) {
+	k := new(big.Int)
+	for {
+		if v, ok := t.IntVal(); ok {
+			return nil, k.Add(k, v)
+		}
+		if t.Op == "+" {
+			if v, ok := t.Args[1].IntVal(); ok {
+				k.Add(k, v)
+				t = t.Args[0]
+				continue
+			}
+			if v, ok := t.Args[0].IntVal(); ok {
+				k.Add(k, v)
+				t = t.Args[1]
+				continue
+			}
+		}
+		if t.Op == "-" {
+			if v, ok := t.Args[1].IntVal(); ok {
+				k.Sub(k, v)
+				t = t.Args[0]
+				continue
+			}
+		}
+		return t, k
+	}
 }
 func (c *TermCtx) Lt(a, b *Term) *Term { return c.cmp("<", a, b) }
 func (c *TermCtx) Le(a, b *Term) *Term { return c.cmp("<=", a, b) }
@@ -631,6 +680,10 @@ func (c *TermCtx) Select(arr, idx *Term) *Term {
 	}
 	if cur.Op == "constarr" {
 		return cur.Args[0]
+	}
+	if cur.Op == "ite" && !idx.open {
+		// read through a merged heap: lets frame instances and read-over-write apply on each side
+		return c.Ite(cur.Args[0], c.Select(cur.Args[1], idx), c.Select(cur.Args[2], idx))
 	}
 	return c.mk("select", "", v, cur, idx)
 }
@@ -757,7 +810,112 @@ func hasFreeVarExcept(t *Term, bound []*Term) bool {
 }
 
 func (c *TermCtx) Forall(bound []*Term, body *Term, pats ...[]*Term) *Term {
+	if len(pats) == 0 {
+		pats = autoPatterns(bound, body)
+	}
 	return c.Quant("forall", bound, body, pats)
+}
+
+// autoPatterns picks triggers: array reads and uninterpreted applications that mention every bound variable and
+// contain no boolean structure. Datatype selectors alone (rroot/rpath) are never triggers -- they match every Ref.
+func autoPatterns(bound []*Term, body *Term) [][]*Term {
+	bid := map[int]bool{}
+	for _, b := range bound {
+		bid[b.id] = true
+	}
+	type info struct {
+		vars map[int]bool
+		ok   bool // usable inside a pattern
+		size int
+	}
+	memo := map[int]*info{}
+	var cands []*Term
+	var walk func(t *Term) *info
+	walk = func(t *Term) *info {
+		if in, ok := memo[t.id]; ok {
+			return in
+		}
+		in := &info{vars: map[int]bool{}, ok: true, size: 1}
+		memo[t.id] = in
+		if t.isVar {
+			if bid[t.id] {
+				in.vars[t.id] = true
+			}
+			return in
+		}
+		if len(t.Bound) > 0 {
+			in.ok = false
+			sub := walk(t.Args[0])
+			for v := range sub.vars {
+				in.vars[v] = true
+			}
+			return in
+		}
+		switch t.Op {
+		case "ite", "and", "or", "not", "=>", "=", "<", "<=", "div", "mod", "*":
+			in.ok = false
+		}
+		for _, a := range t.Args {
+			sub := walk(a)
+			in.size += sub.size
+			if !sub.ok {
+				in.ok = false
+			}
+			for v := range sub.vars {
+				in.vars[v] = true
+			}
+		}
+		if in.ok && len(in.vars) == len(bound) && (t.Op == "select" || t.Op == "app") {
+			cands = append(cands, t)
+		}
+		return in
+	}
+	walk(body)
+	if len(cands) == 0 {
+		return nil
+	}
+	// keep minimal candidates (not containing another candidate), at most 4, smallest first
+	isCand := map[int]bool{}
+	for _, t := range cands {
+		isCand[t.id] = true
+	}
+	var contains func(t *Term, top bool) bool
+	contains = func(t *Term, top bool) bool {
+		if !top && isCand[t.id] {
+			return true
+		}
+		for _, a := range t.Args {
+			if contains(a, false) {
+				return true
+			}
+		}
+		return false
+	}
+	var minimal []*Term
+	for _, t := range cands {
+		if !contains(t, true) {
+			minimal = append(minimal, t)
+		}
+	}
+	if len(minimal) == 0 {
+		minimal = cands
+	}
+	// stable order by size
+	for i := 0; i < len(minimal); i++ {
+		for j := i + 1; j < len(minimal); j++ {
+			if memo[minimal[j].id].size < memo[minimal[i].id].size {
+				minimal[i], minimal[j] = minimal[j], minimal[i]
+			}
+		}
+	}
+	if len(minimal) > 4 {
+		minimal = minimal[:4]
+	}
+	var out [][]*Term
+	for _, t := range minimal {
+		out = append(out, []*Term{t})
+	}
+	return out
 }
 func (c *TermCtx) Exists(bound []*Term, body *Term) *Term { return c.Quant("exists", bound, body, nil) }
 
